@@ -111,9 +111,9 @@ fn client_pos(cur: &[char], off: usize) -> Position {
 /// Builds the document by `Source::change` calls with a range, as didChange does, and returns it together with
 /// the text the client has at the end.  start: 0 = opened empty, 1 = opened with ASCII text and emptied by a
 /// ranged delete of everything, 2 = opened with the ASCII line KEEP_PREFIX that stays (the case's text is the
-/// final text, which then contains that line).  The text T is cut at `cuts` (never behind a CR that is followed by
-/// LF or CR: mixing lone CRs with insertions next to them is the corner DESIGN.md 4.0 puts outside any
-/// normalising server's reach) and the pieces are inserted with order
+/// final text, which then contains that line).  The text T is cut at `cuts`, moved forward so that no piece but
+/// the last ends with CR (mixing lone CRs with insertions next to them is the corner DESIGN.md 4.0 puts outside
+/// any normalising server's reach; the rule holds for the buffer at insertion time in all three orders) and the pieces are inserted with order
 /// 0 = one after the other at the end, 1 = last piece first, each at the front, 2 = first, last, then the middle.
 fn build_history(start: u8, order: u8, cuts: &[usize], final_text: &[char]) -> (Source, Vec<char>) {
     let path = Path::new("/verif_c11_edits.vhd");
@@ -142,9 +142,13 @@ fn build_history(start: u8, order: u8, cuts: &[usize], final_text: &[char]) -> (
     let mut bounds: Vec<usize> = vec![0];
     for &c in cuts {
         let mut c = c.min(text.len());
-        // never cut behind a CR that is followed by another line-break character: the server stores the
-        // following one as LF, and inserting "...CR" in front of it would form one CRLF
-        while c > 0 && c < text.len() && text[c - 1] == '\r' && (text[c] == '\n' || text[c] == '\r') {
+        // No inserted piece may END with CR (except the very last one, behind which nothing is ever inserted):
+        // at the time a piece is inserted the buffer behind the insertion point may start with a line break the
+        // server stores as LF, and "...CR" in front of it would form one CRLF (the mixed lone-CR corner outside
+        // the claim).  The cut moves forward past the CR (and whatever follows it, e.g. its LF).  Consequently
+        // the character in front of every insertion point is never a CR either, so a piece that starts with LF
+        // is never inserted directly behind one.
+        while c > 0 && c < text.len() && text[c - 1] == '\r' {
             c += 1;
         }
         if c > *bounds.last().unwrap() {
